@@ -654,6 +654,9 @@ class SubRecipe(RecipeTreeNode):
         if len(self.output_names) > 1:
             raise MultiOutputSubRecipeUsedAsNonRootNodeError()
 
+    def iter_children(self) -> Iterable[RecipeTreeNode]:
+        yield self.sub_tree
+
     def substitute(self, old: RecipeTreeNode, new: RecipeTreeNode) -> RecipeTreeNode:
         if self == old:
             return new
